@@ -41,7 +41,7 @@ structure Entry where
   requested : Int
   delays : List Int    -- cyclic inter-trial delays, already `int(round(delay*fs))`
   dpos : Nat           -- position in the cycle
-  dur : Int            -- `duration` on the sample grid
+  dur : Int            -- least integer ≥ duration·fs: for integer n, `duration·fs > n ↔ dur > n`
   deriving DecidableEq, Repr, Inhabited
 
 /-- entry of `_generated` -/
